@@ -1,7 +1,6 @@
 (* SRT block grammar and MicroDVD line grammar, as reference parsers (not pycaption's readers).
-   SRT: a document is a sequence of blocks separated by one or more blank lines (a line with nothing but
-   white space counts as blank - the demanding reading: that is what most players and pycaption's own reader
-   do); a block is  index line (digits) / timing line (contains "-->") / one or more text lines.
+   SRT: a document is a sequence of blocks separated by one or more blank lines (a line with nothing but ASCII
+   white space counts as blank); a block is  index line (digits) / timing line (contains "-->") / one or more text lines.
    MicroDVD: every non-empty line is {digits}{digits}text ; '|' separates the lines of the text.
    Definitions only. *)
 From Coq Require Import List ZArith Bool.
@@ -9,7 +8,10 @@ From PV Require Import lib.Sx lib.Str spec.SpecTextVtt.
 Import ListNotations.
 Open Scope Z_scope.
 
-Definition is_blank (l : str) : bool := forallb is_space l.
+(* a blank line = nothing but ASCII white space.  A line holding only U+00A0 is text: the property allows an empty
+   line of a caption to be "rendered as a non-breaking space" *)
+Definition ascii_space (c : Z) : bool := ((9 <=? c) && (c <=? 13)) || ((28 <=? c) && (c <=? 32)).
+Definition is_blank (l : str) : bool := forallb ascii_space l.
 
 Definition srt_block_text (b : list str) : option (list str) :=
   match b with
